@@ -18,6 +18,7 @@ from .tlaval import to_tla
 import txdbus.protocol
 from txdbus import authentication, bus as txbus
 
+USER = getpass.getuser().encode()
 ACTIONS = {'FirstByte': ('nul',), 'Auth': ('m', 'ir', 'o'), 'Data': ('p', 'o'), 'Begin': (), 'Cancel': (),
            'ErrorLine': (), 'TooLong': (), 'Other': ('kind',), 'AfterClose': ('kind',)}
 OBS = ['resp', 'authed', 'closed']      # authed/closed are derived below; see project()
@@ -80,7 +81,7 @@ class AuthServerDriver:
         self.t = fakes.MemoryTransport()
         self.keyring = None
         if real:
-            self.keyring = tempfile.mkdtemp(prefix='txv-keyring-')
+            self.keyring = tempfile.mkdtemp(prefix='txv-keyring-', dir='/dev/shm' if os.path.isdir('/dev/shm') else None)
             os.chmod(self.keyring, 0o700)
             TmpCookie.keyring = self.keyring
             mechs = {b'EXTERNAL': authentication.BusExternalAuthenticator, b'DBUS_COOKIE_SHA1': TmpCookie,
@@ -130,7 +131,7 @@ class AuthServerDriver:
         self.last = self.t.log[before:]
 
     def line_bytes(self, name, args):
-        user = getpass.getuser().encode()
+        user = USER
         if name == 'FirstByte':
             return b'\0' if args[0] else b'A'
         if name == 'Auth':
@@ -432,7 +433,8 @@ def run(tier, seed):
             chk.violation('model: AuthServer(%s) %s %s' % ((label,) + res.violation), dict(kind='TLC', trace=repr(res.trace[-3:])))
         chk.notes[label + '_graph'] = [len(g.nodes), g.nedges]
         # the automaton is finite: the graph covers all line sequences of any length.
-        replay(chk, g, list(core.edge_cover_paths(g)), params, label + '-edges')
+        # every edge (parallel edges = same states, other line contents) lies on one of the tours
+        replay(chk, g, list(core.edge_cover_tours(g, 40)), params, label + '-edges')
         depth = 4 if thorough else 3
         dfs = list(core.paths_dfs(g, depth, max_noop=depth, limit=400000))
         cap = 60000 if thorough else 1200
@@ -441,7 +443,7 @@ def run(tier, seed):
         replay(chk, g, dfs, params, label + '-depth%d' % depth)
         replay(chk, g, list(core.random_walks(g, 3000 if thorough else 150, 14, rng)), params, label + '-walks')
         replay_coalesced(chk, g, list(core.random_walks(g, 6000 if thorough else 400, 12, rng)) +
-                         list(core.edge_cover_paths(g)), params, label, rng)
+                         list(core.edge_cover_tours(g, 12)), params, label, rng)
         # acceptable credentials are accepted (reachability in the model's own graph, then on the code)
         if real:
             want = {'ANONYMOUS': [('Auth', ('ANONYMOUS', 'none', 'ok')), ('Begin', ())],
